@@ -184,8 +184,11 @@ def run(ctx):
         ctx.case(("pca-all", n, p1, p2, k, i), nontrivial=True, tag="use_pca(all)=no-pca", sample=dict(pair="use_pca=True,n_pca_modes='all' vs use_pca=False", k=k))
         try:
             Xc, Yc = gap_data(rng, n, p1, "x", cplx=True), gap_data(rng, n, p2, "y", cplx=True)
-            for cls, kw, (dx, dy) in ((xe.cross.MCA, {}, (X, Y)), (xe.cross.CCA, {}, (X, Y)), (xe.cross.CPCCA, {"alpha": 0.5}, (X, Y)),
-                                      (xe.cross.ComplexMCA, {}, (Xc, Yc)), (xe.cross.ComplexCPCCA, {"alpha": 0.5}, (Xc, Yc))):
+            # the same fields in small or large physical units (a mixing ratio in mol/mol, a pressure in Pa): every other case
+            ux, uy = (float(10.0 ** rng.integers(-12, -6)), float(10.0 ** rng.integers(-9, 6))) if i % 2 == 1 else (1.0, 1.0)
+            ctx.dist["c10:pca-all:units:%s" % ("rescaled" if ux != 1.0 else "as generated")] += 1
+            for cls, kw, (dx, dy) in ((xe.cross.MCA, {}, (X * ux, Y * uy)), (xe.cross.CCA, {}, (X * ux, Y * uy)), (xe.cross.CPCCA, {"alpha": 0.5}, (X * ux, Y * uy)),
+                                      (xe.cross.ComplexMCA, {}, (Xc * ux, Yc * uy)), (xe.cross.ComplexCPCCA, {"alpha": 0.5}, (Xc * ux, Yc * uy))):
                 a = cls(n_modes=k, use_pca=False, solver="full", **kw)
                 a.fit(dx, dy, "time")
                 b = cls(n_modes=k, use_pca=True, n_pca_modes="all", solver="full", **kw)
